@@ -250,8 +250,21 @@ EXC_TYPES = {}
 
 def exc_type(i: int):
     """Injected exceptions come in several built-in flavours: containment must not depend on the type."""
-    bases = [Exception, RuntimeError, KeyError, AssertionError, TypeError, AttributeError, LookupError, NotImplementedError, ExceptionGroup]
+    bases = [Exception, RuntimeError, KeyError, AssertionError, TypeError, AttributeError, LookupError, NotImplementedError, ExceptionGroup, "strict"]
     b = bases[i % len(bases)]
+    if b == "strict":
+        # an exception object that cannot be annotated or modified (frozen-dataclass style): it can only be passed on as it is
+        if "strict" not in EXC_TYPES:
+            class StrictInjected(Injected):
+                def add_note(self, note):
+                    raise TypeError("this exception is immutable")
+
+                def __setattr__(self, name, value):
+                    if name in ("__traceback__", "__context__", "__cause__", "__suppress_context__", "e"):
+                        return super().__setattr__(name, value)
+                    raise AttributeError("this exception is immutable")
+            EXC_TYPES["strict"] = StrictInjected
+        return EXC_TYPES["strict"]
     if b is ExceptionGroup:
         # a hook that raises a group of its own (e.g. from a nursery / TaskGroup it used): one exception like any other
         return lambda n: ExceptionGroup(f"injected group {n}", [ValueError(n), KeyError(n)])
@@ -689,7 +702,7 @@ class C05(PropCheck):
             if base.error is not None and name != "custom":
                 problems.append(f"fault-free extraction already has an error: {base.error!r}")
             fired = 0
-            for k, flavour in [(k, fl) for k in range(1, total + 1) for fl in range(case.get("flavours", 9))]:
+            for k, flavour in [(k, fl) for k in range(1, total + 1) for fl in range(case.get("flavours", 10))]:
                 with Patcher(kind, k, flavour) as p:
                     try:
                         st = stackscope.extract(target, recurse_child_tasks=True)
